@@ -1165,7 +1165,14 @@ func c17Report(e *Env, p *N, src string, v c17Verdict) {
 	// unlisted: shrink the first few (only when the tree is available) and report the small program
 	c17Unlisted++
 	if p != nil && c17Unlisted <= 2 {
+		// shrinking deletes statements, which can turn a terminating loop into an endless one
+		// (every run is cut off after 10 s): the whole shrink gets a budget, after which the
+		// candidate reached so far is reported
+		shrinkUntil := time.Now().Add(40 * time.Second)
 		small := Shrink(p, func(q *N) bool {
+			if time.Now().After(shrinkUntil) {
+				return false
+			}
 			w := c17Check(e, Src(q), true, false)
 			return len(w.viol) > 0 && w.finding == ""
 		})
